@@ -514,8 +514,11 @@ def run(ctx):
                                 ctx.hist('op:failed-delivery-ends-the-process')
                                 break
                             ctx.hist('op:failed-delivery-handled')
-                            li = 'fframe %d' % arg
-                            o = None
+                            # handled: for the tables this is the frame reaching its owner (a DNS query is answered and
+                            # released, a UDP association stays) - which is what the model's `frame` does
+                            li = 'frame %d' % arg
+                            rli = 'fframe %d' % arg
+                            o = ' '.join('delivered %s %d' % (f['kind'], n) for n, f in own)
                             nontriv = True
                         else:
                             o, got, owners = w.frame(arg)
@@ -535,12 +538,11 @@ def run(ctx):
                         lines_in.append('%s %s' % (kind, arg))
                         lines_out.append('exception %s' % type(e).__name__)
                         break
-                    rops.append(li)
-                    if o is not None:      # (a failed delivery is not an operation of the model)
-                        lines_in.append(li)
-                        lines_out.append(o)
-                        lines_in.append('table')
-                        lines_out.append(w.table())
+                    rops.append(rli if kind == 'fframe' else li)
+                    lines_in.append(li)
+                    lines_out.append(o)
+                    lines_in.append('table')
+                    lines_out.append(w.table())
                     # oracle: every association the client holds (and will send on) owns a registered id
                     lost = [i for i in w.held() if not w.mux.channels.get(i)]
                     if lost:
